@@ -22,6 +22,7 @@ subscript forks on "raises <handler type>" for each handler.
 from __future__ import annotations
 
 import ast
+import os
 import re
 from dataclasses import dataclass, field
 
@@ -766,6 +767,22 @@ class Evaluator:
         if isinstance(e, ast.Subscript):
             sv = self.ev(e.slice, st)
             bt = self.subst_text(e.value, st)
+            if isinstance(e.value, ast.Name) and not lvalue and isinstance(sv, int) and not isinstance(sv, bool):
+                # an element of a local list that is known element by element is that element, whatever the list is called
+                lv_ = st.env.get(e.value.id, NOTHING)
+                if isinstance(lv_, (list, tuple)) and -len(lv_) <= sv < len(lv_) and not any(isinstance(x, Sym) and x.text.startswith("*") for x in lv_):
+                    el_ = lv_[sv]
+                    if isinstance(el_, Sym):
+                        return el_.text
+            if isinstance(e.value, ast.Name) and not lvalue:
+                # a table of constants is the same table under any name (a local, or a module-level constant)
+                tv_ = st.env.get(e.value.id, NOTHING)
+                if tv_ is NOTHING:
+                    mc_ = _module_constant(self.fi, e.value.id)
+                    if isinstance(mc_, (ast.List, ast.Tuple)) and all(isinstance(x, ast.Constant) for x in mc_.elts):
+                        tv_ = [x.value for x in mc_.elts]
+                if isinstance(tv_, (list, tuple)) and tv_ and all(isinstance(x, (str, int, float)) or x is None for x in tv_) and len(tv_) <= 40:
+                    bt = vtext(list(tv_))
             it = vtext(sv)
             # d[k] where k is the key of the i-th item of d is the value of that item
             m = re.fullmatch(re.escape(bt) + r"\.items\(\)((?:[#@]\d+)?)\[(\d+)\]\[0\]", it)
@@ -998,6 +1015,33 @@ class Evaluator:
         if ftext.split(".")[-1] == "tqdm" and c.args:
             # tqdm(iterable, ...) iterates the iterable itself (progress display only)
             return self.ev(c.args[0], st)
+        if c.keywords and all(k.arg is not None for k in c.keywords) and isinstance(c.func, ast.Attribute) and isinstance(c.func.value, ast.Name) and c.func.value.id in ("self", "cls") and self.fi is not None:
+            # self.m(a, y=c, x=b) is self.m(a, b, c): arguments of a method of the same class are bound by its signature
+            cls_ = self.fi.cls or (self.fi.parent.cls if self.fi.parent is not None else None)
+            m_ = cls_.find_method(c.func.attr) if cls_ is not None else None
+            if m_ is not None and m_.node.args.vararg is None and m_.node.args.kwarg is None and not m_.node.args.kwonlyargs:
+                names_ = [a.arg for a in m_.node.args.posonlyargs + m_.node.args.args]
+                if names_ and names_[0] in ("self", "cls") and not any(u(d) in ("staticmethod",) for d in m_.node.decorator_list):
+                    names_ = names_[1:]
+                kw_ = {k.arg: k.value for k in c.keywords}
+                rest_ = names_[len(c.args):]
+                if set(kw_) <= set(rest_):
+                    take_ = []
+                    for n_ in rest_:
+                        if n_ in kw_:
+                            take_.append(kw_[n_])
+                        else:
+                            break
+                    if len(take_) == len(kw_):
+                        c2_ = ast.Call(func=c.func, args=list(c.args) + take_, keywords=[])
+                        ast.fix_missing_locations(ast.copy_location(c2_, c))
+                        c = c2_
+        if isinstance(c.func, ast.Attribute) and c.func.attr == "join" and len(c.args) == 1 and not c.keywords and isinstance(c.args[0], ast.GeneratorExp):
+            # sep.join(genexp) is sep.join([listcomp])
+            lc_ = ast.ListComp(elt=c.args[0].elt, generators=c.args[0].generators)
+            ast.copy_location(lc_, c.args[0])
+            c = ast.Call(func=c.func, args=[lc_], keywords=[])
+            ast.fix_missing_locations(ast.copy_location(c, lc_))
         args = [self.ev(a, st) for a in c.args]
         kwargs = {k.arg: self.ev(k.value, st) for k in c.keywords}
         if isinstance(c.func, ast.Attribute) and c.func.attr == "__contains__" and len(args) == 1 and not kwargs:
@@ -1034,6 +1078,19 @@ class Evaluator:
             if isinstance(base, Sym) and base.tag and base.tag[0] == "dict" and base.tag[1] is not None:
                 got = self._dict_lookup(base, args[0], st)
                 return got if got is not NOTHING else (args[1] if len(args) == 2 else None)
+        if isinstance(c.func, ast.Attribute) and c.func.attr == "get" and len(args) in (1, 2) and not kwargs and isinstance(args[0], (str, int)) and not as_stmt:
+            base_ = self.ev(c.func.value, st)
+            if isinstance(base_, Sym) and not (base_.tag and base_.tag[0] == "dict") and not base_.text.startswith(("*", "comp:", "lambda:")) and base_.text.split(".")[0] not in ("os", "re", "sys", "requests"):
+                # d.get(k[, default]) is d[k] when k is in d, else the default: the membership idiom, one atom for both spellings
+                sub_ = ast.Subscript(value=c.func.value, slice=c.args[0], ctx=ast.Load())
+                ast.fix_missing_locations(ast.copy_location(sub_, c))
+                inn_ = ast.Compare(left=c.args[0], ops=[ast.In()], comparators=[c.func.value])
+                ast.fix_missing_locations(ast.copy_location(inn_, c))
+                if self.truth(inn_, st):
+                    return self.ev(sub_, st)
+                if len(c.args) == 2 and isinstance(c.args[1], ast.Dict) and not c.args[1].keys:
+                    return Sym("dict:{}", tag=("dict", {}, c.args[1]))  # the empty default: nothing is in it
+                return args[1] if len(args) == 2 else None
         if isinstance(c.func, ast.Attribute) and c.func.attr == "join" and len(args) == 1 and not kwargs:
             sep = self.ev(c.func.value, st)
             if isinstance(sep, str) and isinstance(args[0], (list, tuple)) and all(isinstance(x, str) for x in args[0]):
@@ -1225,6 +1282,18 @@ class Evaluator:
             val = self.ev(last, st)
             self.call(c, st, as_stmt=True)
             return val
+        own_cls_ = (self.fi.cls or (self.fi.parent.cls if self.fi.parent is not None else None)) if self.fi is not None else None
+        if isinstance(c.func, ast.Attribute) and isinstance(c.func.value, ast.Name) and (c.func.value.id in ("self", "cls") or (own_cls_ is not None and c.func.value.id == own_cls_.name.rsplit(".", 1)[-1])) and not kwargs and args and not any(isinstance(a, ast.Starred) for a in c.args):
+            # the parameters of a method were re-ordered (same names, every call site updated): a call that is not
+            # interpreted in place is DENOTED in the reviewed order, so that `self.m(a, b)` before and `self.m(b, a)`
+            # after are one thing
+            ro_ = _reordered_params(self.fi, c.func.attr)
+            if ro_ is not None and len(args) <= len(ro_[0]):
+                cur_, ref_ = ro_
+                by_ = dict(zip(cur_, args))
+                new_ = [by_[n_] for n_ in ref_ if n_ in by_]
+                if len(new_) == len(args) and [n_ for n_ in ref_ if n_ in by_] == ref_[: len(new_)]:
+                    args = new_
         argt = ", ".join([vtext(a) for a in args] + [f"{k}={vtext(v)}" for k, v in kwargs.items()])
         text = f"{ftext}({argt})"
         if as_stmt or not self.hooks.pure(ftext):
@@ -1388,6 +1457,9 @@ class Evaluator:
                 lt, rt = rt, lt
             if lt == rt:
                 return not neg
+        if name == "In" and not isinstance(l, Sym) and (isinstance(l, (str, int, float)) or l is None) and isinstance(r, Sym) and r.tag and r.tag[0] in ("dict", "set") and r.tag[1] is not None:
+            hit = l in r.tag[1]  # a constant and a display of constants: decided
+            return (not hit) if neg else hit
         if name == "In" and isinstance(l, Sym):
             # x in (c1, c2, ...) / x in {"a": .., "b": ..} with constant members is the chain x == c1 or x == c2 ...
             members = None
@@ -1495,6 +1567,43 @@ def _is_class_name(name, fi):
         if any(name in m.classes for m in repo.modules.values()):
             return True
     return bool(re.fullmatch(r"[A-Z][A-Za-z0-9]*[a-z][A-Za-z0-9]*", name)) and name not in ("None", "True", "False")
+
+
+_REORD: dict = {}
+
+
+def _reordered_params(fi, mname):
+    """(current order, reviewed order) of the parameters (self apart) of method `mname` of fi's class when both trees
+    have the method with the same parameter names in a different order and no defaults / varargs change; else None.
+    Seen from the reviewed tree the roles are swapped, so both sides denote calls in the reviewed order."""
+    cls = fi.cls or (fi.parent.cls if fi.parent is not None else None)
+    if cls is None:
+        return None
+    key = (fi.module.repo.root, cls.name, mname)
+    if key in _REORD:
+        return _REORD[key]
+    out = None
+    try:
+        from . import review
+
+        m = cls.find_method(mname)
+        o = review.other_side(fi.module.repo)
+        g = next((x for x in o.all_functions() if m is not None and x.key == m.key), None) if o is not None else None
+        if m is not None and g is not None:
+            def names(f):
+                a = f.node.args
+                if a.vararg or a.kwarg or a.kwonlyargs:
+                    return None
+                n = [x.arg for x in a.posonlyargs + a.args]
+                return n[1:] if n and n[0] in ("self", "cls") else n
+            cn, rn = names(m), names(g)
+            if cn and rn and cn != rn and sorted(cn) == sorted(rn) and len(m.node.args.defaults) == len(g.node.args.defaults):
+                is_ref = os.path.abspath(fi.module.repo.root) == os.path.abspath(review.reference_repo().root)
+                out = None if is_ref else (cn, rn)
+    except Exception:
+        out = None
+    _REORD[key] = out
+    return out
 
 
 _ENCL: dict = {}
